@@ -17,7 +17,7 @@ RULE = ("(a) pool of 10 classes chosen to collide (6/10/12/16-byte CDBs, inherit
         "caller objects, del; BFS with de-duplication on a digest of class-level state + live objects, all pairs to depth 4 (thorough 5) and all "
         "triples to depth 3 (thorough 4); in every state every live object and every class's codec is compared with what the same call yields "
         "alone. (b) 2 threads (thorough: also 3), each 'c=X(..); bytes(c.cdb); X.unmarshall_cdb; X.marshall_cdb; len(c.datain)', every ordered "
-        "pair of pool classes, all schedules with at most 1 preemption at every traced source line of the library (thorough: 2 preemptions at "
+        "pair of pool classes, plus decoder threads (standard INQUIRY, VPD 83h, MODE SENSE(10), REPORT LUNS, RTPG, READ FULL STATUS, READ ELEMENT STATUS, sense) in all ordered pairs, all schedules with at most 1 preemption at every traced source line of the library (thorough: 2 preemptions at "
         "call/line granularity outside converter.py); each schedule's per-thread observation must equal the solo observation; the first "
         "schedule of every pair is replayed twice and must be bit-identical. states = distinct canonical states (a), transitions = operations "
         "applied (a) + schedules executed (b).")
@@ -72,6 +72,12 @@ def partitions(tier):
     for a in POOL:
         for b in POOL:
             parts.append(["sched", [a, b]])
+    decs = list(DECODER_CASES)
+    dq = decs if tier != "quick" else ["dec:inquiry_std", "dec:vpd83", "dec:rtpg", "dec:sense", "dec:prfull"]
+    for a in dq:
+        for b in dq:
+            parts.append(["sched", [a, b]])
+        parts.append(["sched", [a, "Inquiry"]])
     if tier != "quick":
         for t in itertools.permutations(["Read10", "Inquiry", "Read16", "TestUnitReady"], 3):
             parts.append(["sched", list(t)])
@@ -249,6 +255,8 @@ def ops_for(names):
 
 # ---------------------------------------------------------------------------------
 def thread_body(name, variant):
+    if name.startswith("dec:"):
+        return decoder_body(name)
     cls = CS.get_class(name)
     op = opcode_for(name)
     kw = kwargs_for(name, variant)
@@ -262,7 +270,58 @@ def thread_body(name, variant):
     return body
 
 
+DECODER_CASES = {
+    # name -> C04 case (a well-formed multi-descriptor response of that format)
+    "dec:inquiry_std": ["inquiry_std", {"peripheral_device_type": 5, "version": 6, "tpgs": 3, "cmdque": 1}, 1, 0],
+    "dec:vpd83": ["vpd83", [8, 9, 12], 0],
+    "dec:mode10": ["mode10", 0x0A, None, {"tst": 2, "d_sense": 1, "busy_timeout_period": 0x1234}, {"medium_type": 3, "device_specific_parameter": 0x10}, 1, 0, 0],
+    "dec:reportluns": ["reportluns", [0, 0x0001000000000000, 0xC101000000000000], 0],
+    "dec:rtpg": ["rtpg", [[{"asymmetric_access_state": 1, "target_port_group": 7}, [1, 2]], [{"asymmetric_access_state": 2, "target_port_group": 9}, [3]]], 1, 9, 0],
+    "dec:prfull": ["prfull", 5, [[{"reservation_key": 3, "r_holder": 1, "scope": 0, "type": 5, "relative_target_port_id": 1}, 3],
+                                 [{"reservation_key": 4, "r_holder": 0, "scope": 0, "type": 5, "relative_target_port_id": 2}, 0]], 0],
+    "dec:res": ["res", 0x10, 2, [[2, 1, 0, [{"element_address": 0x10, "full": 1, "access": 1, "primary_volume_tag": "hex:" + (b"VOL001").ljust(36, b" ").hex()},
+                                            {"element_address": 0x11, "primary_volume_tag": "hex:" + (b"VOL002").ljust(36, b" ").hex()}]]], 0],
+    "dec:sense": None,
+}
+
+
+def freeze(x):
+    if isinstance(x, dict):
+        return tuple(sorted((str(k), freeze(v)) for k, v in x.items()))
+    if isinstance(x, (list, tuple)):
+        return tuple(freeze(v) for v in x)
+    if isinstance(x, (bytes, bytearray)):
+        return bytes(x)
+    return x
+
+
+def decoder_body(name):
+    """thread body: decode a canonical response (and rebuild it where the library can) - observation must equal the solo one"""
+    from vf.props import c04
+    if name == "dec:sense":
+        from pyscsi.pyscsi.scsi_sense import SCSICheckCondition
+        from vf.sim.target import fixed_sense
+        buf = fixed_sense(6, 0x29, 0x01)
+
+        def body():
+            e = SCSICheckCondition(bytearray(buf))
+            return (str(e), freeze(e.data), e.asc, e.ascq)
+        return body
+    fmt, data, exp, dec = c04.build(DECODER_CASES[name])
+
+    def body():
+        return freeze(dec(bytearray(data)))
+    return body
+
+
+_DSOLO = {}
+
+
 def solo_thread(name, variant):
+    if name.startswith("dec:"):
+        if name not in _DSOLO:
+            _DSOLO[name] = decoder_body(name)()
+        return _DSOLO[name]
     ob, dec, enc = solo(name, variant)
     return (ob[0], tuple(sorted(dec.items())), enc, ob[1])
 
@@ -294,8 +353,8 @@ def run_schedules(names, bound, gran, acc, tag, max_schedules=None):
                               % (tid, n, type(x.errors[tid]).__name__, x.errors[tid], switch_points(x)), case)
             elif x.results[tid] != want[tid]:
                 acc.violation("thread_interference/%s|%s" % (n, "+".join(names)),
-                              "thread %d (%s): cdb %s decode/encode %s, alone cdb %s; switches at %r"
-                              % (tid, n, x.results[tid][0].hex(), x.results[tid][2].hex(), want[tid][0].hex(), switch_points(x)), case)
+                              "thread %d (%s) observed %s, alone it observes %s; switches at %r"
+                              % (tid, n, repr(x.results[tid])[:120], repr(want[tid])[:120], switch_points(x)), case)
         acc.outcome((tuple(names), tuple(repr(r) for r in x.results)))
 
     n, capped = sched.explore(make, pre, bound, on_exec, gran, max_schedules)
@@ -329,7 +388,7 @@ def run_case(case):
             out.append(("thread_raises/%s|%s" % (n, "+".join(names)), "thread %d raised %r" % (tid, x.errors[tid])))
         elif x.results[tid] != solo_thread(n, 0):
             out.append(("thread_interference/%s|%s" % (n, "+".join(names)), "thread %d (%s) observed %s, alone %s"
-                        % (tid, n, x.results[tid][0].hex(), solo_thread(n, 0)[0].hex())))
+                        % (tid, n, repr(x.results[tid])[:120], repr(solo_thread(n, 0))[:120])))
     return out
 
 
